@@ -18,7 +18,7 @@ func init() {
 			"random arrays up to length 12 with lists up to 4 and bounds to +-2^31. Oracle: slice arithmetic written in the harness. Non-trivial: array length >= 1; distinct by (array, subscript list, mode, silent)",
 		Run:          runC14,
 		Replay:       replayC14,
-		MinExercised: map[string]int64{"single": 5000, "range": 20000, "list": 20000, "last": 5000, "lax.clip": 5000, "lax.wrap": 500, "strict.bounds": 5000, "strict.below-any": 200, "subscript.current": 2000, "badsubscript": 200},
+		MinExercised: map[string]int64{"single": 5000, "range": 20000, "list": 20000, "last": 5000, "lax.clip": 5000, "lax.wrap": 500, "strict.bounds": 5000, "strict.below-any": 200, "subscript.current": 2000, "last.scope": 100, "badsubscript": 200},
 		Assumptions:  []string{"positions are trunc(e) toward zero; ranges inclusive; last = n-1 of the innermost subscripted array"},
 	})
 }
@@ -247,6 +247,85 @@ func canonElem(txt string) string {
 	return s
 }
 
+// checkLastScope (shared with C09): arrays a (n elements 10,20,...) and b (m
+// small integers); $.a[$.b[i] ? (@ <= last)] selects a[b[i]] if b[i] <= n-1
+// and otherwise has no numeric subscript (an error). An implementation that
+// lets last denote b inside the continuation of $.b[i] compares with m-1.
+func checkLastScope(c *h.Ctx, clause string) {
+	k := 0
+	for n := 2; n <= 5; n++ {
+		for m := 1; m <= 4; m++ {
+			for i := 0; i < m; i++ {
+				for v := 0; v <= 4; v++ {
+					for _, form := range []string{"$.a[$.b[%d] ? (@ <= last)]", "$.a[$.b[%d] ? (@ + 0 <= last - 0)]", "strict $.a[$.b[%d] ? (@ <= last)]", "$.a[0, $.b[%d] ? (@ <= last)]"} {
+						k++
+						if !c.Mine(k) {
+							continue
+						}
+						as, bs := make([]string, n), make([]string, m)
+						for j := range as {
+							as[j] = fmt.Sprint(10 * (j + 1))
+						}
+						for j := range bs {
+							bs[j] = "0"
+						}
+						bs[i] = fmt.Sprint(v)
+						docText := fmt.Sprintf(`{"a":[%s],"b":[%s]}`, strings.Join(as, ","), strings.Join(bs, ","))
+						ptxt := fmt.Sprintf(form, i)
+						p := cachedPath(ptxt)
+						if p == nil {
+							c.Count("gen.unparsable", 1)
+							continue
+						}
+						o := h.Call("query", p, h.Decode(docText, false), h.Opts{})
+						c.Eval(1)
+						c.Distinct(ptxt, docText)
+						var want []string
+						if strings.Contains(form, "[0, ") {
+							want = append(want, "#10")
+						}
+						wantErr := v > n-1
+						if !wantErr {
+							want = append(want, "#"+as[v])
+						}
+						got := ""
+						if o.Class == h.OK {
+							gs := make([]string, len(o.Items))
+							for j, it := range o.Items {
+								gs[j] = canonJSON(it)
+							}
+							got = strings.Join(gs, " | ")
+						}
+						ok := (wantErr && o.Class == h.Soft) || (!wantErr && o.Class == h.OK && got == strings.Join(want, " | "))
+						if ok {
+							c.Held(clause)
+							continue
+						}
+						cause := "unexplained"
+						// what dynamic scoping (last = m-1 in the continuation of $.b[i]) gives
+						dynErr := v > m-1
+						var dynWant []string
+						if strings.Contains(form, "[0, ") {
+							dynWant = append(dynWant, "#10")
+						}
+						if !dynErr {
+							if v <= n-1 {
+								dynWant = append(dynWant, "#"+as[v])
+							} else if strings.HasPrefix(form, "strict") {
+								dynErr = true // out of bounds
+							}
+						}
+						if (dynErr && o.Class == h.Soft) || (!dynErr && o.Class == h.OK && got == strings.Join(dynWant, " | ")) {
+							cause = "last-in-continuation-of-nested-subscript"
+						}
+						c.Violate(clause, h.F("cause", cause), fmt.Sprintf("Query(%s) on %s = %s; last belongs to the subscript of $.a (%d elements), so the filter keeps %d iff %d <= %d", ptxt, docText, o.Summary(), n, v, v, n-1), h.Case{Kind: "nested", Path: ptxt, Doc: docText})
+					}
+				}
+			}
+		}
+	}
+}
+
 func replayC14(c *h.Ctx, cs h.Case) {
 	p, err, pan := h.ParseSafe(cs.Path)
 	if err != nil || pan != "" {
@@ -465,6 +544,10 @@ func runC14(c *h.Ctx) {
 			c.Held("subscript.current")
 		}
 	}
+	// last after a nested subscript: in $.a[$.b[i] ? (@ <= last)] the filter
+	// follows the nested subscript [i]; the last it mentions belongs to the
+	// subscript of $.a that encloses it
+	checkLastScope(c, "last.scope")
 	// strict mode below .**: only member accessors skip what they do not apply
 	// to; a subscript on a non-array stays the structural error, it does not
 	// turn the value into a one-element array (that is lax mode)
